@@ -378,6 +378,10 @@ func Render(g *spec.Grammar, p Parts, o Options) string {
 	if o.OneLineRules {
 		var parts []string
 		for _, l := range rules {
+			if len(l.s) >= 3 && l.s[0] == '\'' && l.s[len(l.s)-1] == '\'' {
+				parts = append(parts, l.s) // a character literal (it may be a newline) stays as it is
+				continue
+			}
 			parts = append(parts, strings.ReplaceAll(l.s, "\n", " "))
 		}
 		rulesText = strings.Join(parts, " ") + "\n"
